@@ -60,8 +60,8 @@ func AsOPClient(s *ClientSpec) op.Client {
 	return client{s}
 }
 
-func (c client) GetID() string                   { return c.s.ID }
-func (c client) RedirectURIs() []string          { return c.s.RedirectURIs }
+func (c client) GetID() string                    { return c.s.ID }
+func (c client) RedirectURIs() []string           { return c.s.RedirectURIs }
 func (c client) PostLogoutRedirectURIs() []string { return c.s.PostLogoutURIs }
 func (c client) ApplicationType() op.ApplicationType {
 	switch c.s.AppType {
@@ -116,7 +116,7 @@ func (c client) IsScopeAllowed(scope string) bool {
 	return false
 }
 func (c client) IDTokenUserinfoClaimsAssertion() bool { return c.s.UserinfoAssertion }
-func (c client) ClockSkew() time.Duration            { return time.Duration(c.s.ClockSkewS) * time.Second }
+func (c client) ClockSkew() time.Duration             { return time.Duration(c.s.ClockSkewS) * time.Second }
 
 func dropScopes(drop []string) func([]string) []string {
 	return func(scopes []string) []string {
